@@ -28,7 +28,7 @@ Definition out_eqb (a b : out) : bool :=
   | OAuthz x, OAuthz y => onat_eqb x y
   | OLogin x, OLogin y => Bool.eqb x y
   | OCode x, OCode y => Nat.eqb x y
-  | OCbErr, OCbErr | OCbFail, OCbFail | OPanic, OPanic | OOther, OOther => true
+  | OCbErr, OCbErr | OCbFail, OCbFail | OPanic, OPanic | OOther, OOther | ODone, ODone => true
   | OTokens x, OTokens y => tokresp_eqb x y
   | OErr c e, OErr c' e' => Nat.eqb c c' && String.eqb e e'
   | _, _ => false
